@@ -102,7 +102,7 @@ def run(ck, prog):
     # (4) single rounding
     for meth in ("FCR", "NCPR", "Fplus", "Fminus"):
         g = prog.fn(SEQ, "Sequence." + meth)
-        _single_rounding(ck, g)
+        _single_rounding(ck, g, prog)
     _compare_discipline(ck, prog, f)
     # (5) annotation
     _annotation(ck, prog, pair)
@@ -160,12 +160,18 @@ def _float_calls(n):
     return [c for c in ast.walk(n) if isinstance(c, ast.Call) and isinstance(c.func, ast.Attribute) and c.func.attr in ("Fplus", "Fminus", "FCR", "NCPR", "FER")]
 
 
-def _single_rounding(ck, g):
+def _single_rounding(ck, g, prog=None):
     """the pH=None return of g is `<integer expression> / <integer as float>`: one rounding.
     recognised single-division forms -> ok; arithmetic that combines already-rounded fractions -> violation; anything else -> undecided"""
     construct = g.mod.relpath + ":" + g.qual
     rets = [n for n in ast.walk(g.node) if isinstance(n, ast.Return) and n.value is not None]
     cands = [r for r in rets if not any(isinstance(x, ast.Name) and x.id == "pH" for x in ast.walk(r.value))]
+    if prog is not None and rets:
+        # the function specialised to pH = None, with its locals and the helpers of the class it goes through expanded in place
+        from lcsa import bind
+        spec = bind.specialise_returns(prog, g, {"pH": None} if "pH" in g.params() else {}, keep=INT_CALLS | {"Fplus", "Fminus", "FCR", "NCPR", "FER"})
+        if spec:
+            cands = [ast.copy_location(ast.Return(value=e), rets[0]) for e in spec]
     ck.shape(bool(cands), "%s: a return that does not involve pH" % g.qual, g.loc())
     for r in cands:
         v = r.value
